@@ -140,7 +140,7 @@ def nice_pins(shape):
     return pins
 
 
-def corner_inputs(names, count=160, seed=0):
+def corner_inputs(names, count=220, seed=0):
     """Concrete candidate inputs biased to corners of the domain (sigma = 0 or tiny, equal mus,
     large mismatches, tau = 0 ...).  Used ONLY to find a replayable witness after the solver has
     answered `sat` on the uninterpreted abstraction (whose own model may assign impossible values
@@ -177,7 +177,7 @@ def corner_inputs(names, count=160, seed=0):
                         e[n] = 0.5 * b
                 out.append(e)
     for k in range(count):
-        b = rng.choice([25 / 6, 25 / 6, 1.0, 0.01, 300.0])
+        b = rng.choice([25 / 6, 25 / 6, 1.0, 0.01, 300.0, 25 / 6000, 25 / 6000])  # incl. the default system rescaled by 1e-3 (absolute floors such as kappa bite there)
         eq_mu = rng.random() < 0.4
         sg_mode = rng.choice(['zero', 'tiny', 'mid', 'big', 'mix', 'mix'])
         mu0 = rng.uniform(-5 * b, 5 * b)
